@@ -138,6 +138,15 @@ theorem nht_oracle_scale (O : Analytic) (norm env : List Rat → List Rat) (c : 
       = ((O.nhtH norm env x).1, (O.nhtH norm env x).2.map fun a => c * a) := by
   simp [Analytic.nhtH, hnorm, henv]
 
+/-- … and for the `quad` branch likewise: the quadrature signal is built from the normalised
+    IMF only. -/
+theorem quad_oracle_scale (O : Analytic) (norm env sqrtT : List Rat → List Rat) (c : Rat) (x : List Rat)
+    (hnorm : norm (x.map fun v => c * v) = norm x)
+    (henv : env (x.map fun v => c * v) = (env x).map fun a => c * a) :
+    O.quadH norm env sqrtT (x.map fun v => c * v)
+      = ((O.quadH norm env sqrtT x).1, (O.quadH norm env sqrtT x).2.map fun a => c * a) := by
+  simp [Analytic.quadH, hnorm, henv]
+
 /-- Amplitude normalisation is scale free: with a homogeneous envelope oracle and at least
     one normalisation pass, `c • x` and `x` normalise to the same signal (the first division
     removes the factor; all later iterates coincide). -/
